@@ -57,3 +57,15 @@ Theorem C03_bare_arrays_are_rejected :
   forall (R : comRingType) dim (self : sp R) sw, [/\ sp_add dim self OArr = BErr TypeError, sp_sub dim self OArr = BErr TypeError, sp_mul dim self OArr sw = BErr TypeError & sp_div self OArr = BErr TypeError].
 Proof. first [exact: arrays_rejected | by move=> *; exact: arrays_rejected | by intros; eapply arrays_rejected; eauto]. Qed.
 Print Assumptions C03_bare_arrays_are_rejected.
+
+From mathcomp Require Import ssrZ.
+From Coq Require Import ZArith.
+(* non-vacuity: pointers of one vocabulary combine, pointers of two vocabularies of equal dimensionality do not,
+   a vocabulary-less pointer adopts the other operand's vocabulary *)
+Example C03_examples :
+  let dim := fun _ : nat => 2%nat in
+  let a := SP [:: 1; 2]%Z (Some 0%nat) AHrr in let b := SP [:: 3; 4]%Z (Some 0%nat) AHrr in
+  let c := SP [:: 3; 4]%Z (Some 1%nat) AHrr in let p := SP [:: 5; 6]%Z None AHrr in
+  [/\ gate dim a b = Ok (Some 0%nat), gate dim a c = Err SpaTypeError, gate dim p c = Ok (Some 1%nat)
+    & sp_dot dim a b = Ok 11%Z].
+Proof. by vm_compute. Qed.
